@@ -208,7 +208,14 @@ EXTRA11 = {
  "C15": " A level name / rotation policy that is registered between a failed and a second Refresh; a policy re-registered with another interval.",
  "C20": " A second life of the same configuration in one process, with an absolute and with a relative log directory.",
 }
-for e in (EXTRA, EXTRA5, EXTRA6, EXTRA7, EXTRA8, EXTRA9, EXTRA10, EXTRA11):
+# round 12
+EXTRA12 = {
+ "C06": " The directed sequences also on a logger with a past (97..101 / 197 / 198 items delivered before the buffer is filled).",
+ "C07": " The line-stays-intact enumeration of C03 / C08.",
+ "C09": " Every Unicode scalar value and every 1- and 2-byte string under every registered top-level property (discovered from the tree) x {true, 1, false}.",
+ "C19": " A creation that fails while expired own files sit in the directory (quiet period longer than the maximum age).",
+}
+for e in (EXTRA, EXTRA5, EXTRA6, EXTRA7, EXTRA8, EXTRA9, EXTRA10, EXTRA11, EXTRA12):
     for k, v in e.items():
         CHECKS[k]["text"] += v
 CHECKS["C15"]["note"] = CHECKS["C15"]["note"].replace("Trusted: the deviation table (expected defaults) in harness/enum/c15.go.", "Trusted: the deviation table in harness/enum/c15.go (expected defaults of integer/boolean/word attributes are read from the live plugin's struct tag, so a tree that declares other defaults is not an alarm).")
